@@ -438,8 +438,8 @@ Definition op_tail (l : chars) : option chars :=
   let l := drop_spaces l in
   match map lower l with
   | "n"%char :: "o"%char :: "t"%char :: s :: "i"%char :: "n"%char :: r =>
-      if is_space s && at_end r then Some (firstn 6 l) else None
-  | "i"%char :: "n"%char :: r => if at_end r then Some (firstn 2 l) else None
+      if is_space s && at_end r then Some (lchars "not in") else None     (* " ".join(op.lower().split()) *)
+  | "i"%char :: "n"%char :: r => if at_end r then Some (lchars "in") else None
   | _ => None
   end.
 (* STR_CMP_CONSTRAINT: quote, shortest non-empty value without newline, the same quote, op tail *)
